@@ -60,6 +60,8 @@ def spec_key(s):
             out.append("%02x" % f)
         else:
             out.append("%02x/%02x" % (f, m))
+    while out and out[-1].endswith("/00"):        # bytes without fixed bits (ModRM of /r, immediates)
+        out.pop()
     return " ".join(out)
 
 
